@@ -158,8 +158,8 @@ class Ctx:
         u_e = U32 if self.edt == 'float32' else U64
         self.u_all = U32 if (self.edt == 'float32' and self.tdt == 'float32') else U64
         self.u_t = U32 if self.tdt == 'float32' else U64
-        # relative error bound of the kernel's t0: factor error halves under the root; cast of the
-        # constant, division, root, product with the length round once each in the energy dtype
+        # relative error bound of any float evaluation of t0 = L*sqrt(c/E): the factor error halves under
+        # the root; division, cast to the energy dtype, root and product with the length round once each
         self.rho0 = _factor_error(self.eu, self.tu, lfix) / 2 + 4 * u_e
         self.rho_scale = _factor_error(self.eu, self.tu, loth)
         # |t - t0| <= band*t0: NaN or finite both fine (the first float above the kernel's t0 lies here)
